@@ -38,6 +38,34 @@ impl Tape {
             bounds: Vec::new(),
         }
     }
+    pub fn is_replay(&self) -> bool {
+        matches!(self.src, Source::Replay(_))
+    }
+
+    /// Replay mode: take the next `len` raw cells (fewer if the tape is exhausted), recording
+    /// them verbatim.  Generate mode: not used.
+    pub fn take_raw(&mut self, len: usize) -> Vec<u32> {
+        let out: Vec<u32> = match &self.src {
+            Source::Replay(v) => v.iter().skip(self.pos).take(len).copied().collect(),
+            Source::Gen(_) => Vec::new(),
+        };
+        self.pos += out.len();
+        for &c in &out {
+            self.rec.push(c);
+            self.bounds.push(u32::MAX);
+        }
+        out
+    }
+
+    /// Generate mode: append cells that were consumed elsewhere (a nested tape) to the record.
+    pub fn append_raw(&mut self, cells: &[u32]) {
+        for &c in cells {
+            self.rec.push(c);
+            self.bounds.push(u32::MAX);
+        }
+        self.pos += cells.len();
+    }
+
     #[inline]
     pub fn draw(&mut self, n: u32) -> u32 {
         if n <= 1 {
